@@ -1,0 +1,117 @@
+//go:build verif
+
+// Contracts for the function-style adaptation-field accessors, checked by /verif/engine (govc).
+// Compiled only with the build tag "verif". The layout spec functions restate ISO/IEC 13818-1
+// 2.4.3.4 for this package (the ones in package packet are unexported).
+
+package adaptationfield
+
+import (
+	"github.com/Comcast/gots/v2"
+	"github.com/Comcast/gots/v2/packet"
+)
+
+func afFlag(p *packet.Packet, m byte) bool { return p[5]&m != 0 }
+
+func afIf(b bool, n int) int {
+	if b {
+		return n
+	}
+	return 0
+}
+
+func afOPCRStart(p *packet.Packet) int   { return 6 + afIf(afFlag(p, 0x10), 6) }
+func afSpliceStart(p *packet.Packet) int { return afOPCRStart(p) + afIf(afFlag(p, 0x08), 6) }
+func afTPDStart(p *packet.Packet) int    { return afSpliceStart(p) + afIf(afFlag(p, 0x04), 1) }
+
+//@ func Length(pkt *packet.Packet) uint8
+//@   props C03
+//@   requires pkt != nil
+//@   ensures result == pkt[4]
+//@   modifies nothing
+
+//@ func IsDiscontinuous(pkt *packet.Packet) bool
+//@   props C03
+//@   requires pkt != nil
+//@   ensures result == (pkt[5]/128 == 1)
+//@   modifies nothing
+
+//@ func IsRandomAccess(pkt *packet.Packet) bool
+//@   props C03
+//@   requires pkt != nil
+//@   ensures result == ((pkt[5]/64)%2 == 1)
+//@   modifies nothing
+
+//@ func IsESHigherPriority(pkt *packet.Packet) bool
+//@   props C03
+//@   requires pkt != nil
+//@   ensures result == ((pkt[5]/32)%2 == 1)
+//@   modifies nothing
+
+//@ func HasPCR(pkt *packet.Packet) bool
+//@   props C03
+//@   requires pkt != nil
+//@   ensures result == ((pkt[5]/16)%2 == 1)
+//@   modifies nothing
+
+//@ func HasOPCR(pkt *packet.Packet) bool
+//@   props C03
+//@   requires pkt != nil
+//@   ensures result == ((pkt[5]/8)%2 == 1)
+//@   modifies nothing
+
+//@ func HasSplicingPoint(pkt *packet.Packet) bool
+//@   props C03
+//@   requires pkt != nil
+//@   ensures result == ((pkt[5]/4)%2 == 1)
+//@   modifies nothing
+
+//@ func HasTransportPrivateData(pkt *packet.Packet) bool
+//@   props C03
+//@   requires pkt != nil
+//@   ensures result == ((pkt[5]/2)%2 == 1)
+//@   modifies nothing
+
+//@ func HasAdaptationFieldExtension(pkt *packet.Packet) bool
+//@   props C03
+//@   requires pkt != nil
+//@   ensures result == (pkt[5]%2 == 1)
+//@   modifies nothing
+
+//@ func PCR(pkt *packet.Packet) (b []byte, err error)
+//@   props C03
+//@   requires pkt != nil
+//@   ensures !afFlag(pkt, 0x10) ==> b == nil && err == gots.ErrNoPCR
+//@   ensures afFlag(pkt, 0x10) ==> err == nil && len(b) == 6 && &b[0] == &pkt[6]
+//@   modifies nothing
+
+//@ func OPCR(pkt *packet.Packet) (b []byte, err error)
+//@   props C03
+//@   requires pkt != nil
+//@   ensures !afFlag(pkt, 0x08) ==> b == nil && err == gots.ErrNoOPCR
+//@   ensures afFlag(pkt, 0x08) ==> err == nil && len(b) == 6 && &b[0] == &pkt[afOPCRStart(pkt)]
+//@   modifies nothing
+
+//@ func SpliceCountdown(pkt *packet.Packet) (v uint8, err error)
+//@   props C03
+//@   requires pkt != nil
+//@   ensures !afFlag(pkt, 0x04) ==> v == 0 && err == gots.ErrNoSplicePoint
+//@   ensures afFlag(pkt, 0x04) ==> err == nil && v == pkt[afSpliceStart(pkt)]
+//@   modifies nothing
+
+// For a well-formed field the private data ends inside the packet: TPDStart+1+len <= 188.
+//@ func TransportPrivateData(pkt *packet.Packet) (b []byte, err error)
+//@   props C03
+//@   requires pkt != nil && (afFlag(pkt, 0x02) ==> afTPDStart(pkt)+1+int(pkt[afTPDStart(pkt)]) <= 188)
+//@   ensures !afFlag(pkt, 0x02) ==> b == nil && err == gots.ErrNoPrivateTransportData
+//@   ensures afFlag(pkt, 0x02) ==> err == nil && len(b) == int(pkt[afTPDStart(pkt)])
+//@   ensures afFlag(pkt, 0x02) && pkt[afTPDStart(pkt)] != 0 ==> &b[0] == &pkt[afTPDStart(pkt)+1]
+//@   modifies nothing
+
+//@ func EncoderBoundaryPoint(pkt *packet.Packet) (b []byte, err error)
+//@   props C03
+//@   requires pkt != nil && (afFlag(pkt, 0x02) ==> afTPDStart(pkt)+1+int(pkt[afTPDStart(pkt)]) <= 188)
+//@   ensures !((pkt[3]/32)%2 == 1 && pkt[4] > 0 && afFlag(pkt, 0x02)) ==> b == nil && err == gots.ErrNoEBP
+//@   ensures (pkt[3]/32)%2 == 1 && pkt[4] > 0 && afFlag(pkt, 0x02) ==> err == nil && len(b) == int(pkt[afTPDStart(pkt)])
+//@   modifies nothing
+var _ = gots.ErrNoPCR
